@@ -186,6 +186,9 @@ func (h hdrVariant) render(closeIt bool) string {
 		return `<stream:error xmlns:stream='` + streamNS + `'><host-unknown xmlns='urn:ietf:params:xml:ns:xmpp-streams'/></stream:error>`
 	case "open":
 		b.WriteString(`<open xmlns='` + wsNS + `'`)
+	case "ws:close", "ws:other":
+		// other elements of the framing namespace are not the stream-open element
+		b.WriteString(`<` + h.name[3:] + ` xmlns='` + wsNS + `'`)
 	case "foo":
 		b.WriteString(`<foo`)
 		if h.xmlns != "-" {
@@ -210,7 +213,7 @@ func (h hdrVariant) render(closeIt bool) string {
 	if h.to != "" {
 		fmt.Fprintf(&b, ` to='%s'`, h.to)
 	}
-	if h.name == "open" || closeIt {
+	if h.name == "open" || strings.HasPrefix(h.name, "ws:") || closeIt {
 		b.WriteString("/>")
 	} else {
 		b.WriteString(">")
@@ -218,7 +221,7 @@ func (h hdrVariant) render(closeIt bool) string {
 	return b.String()
 }
 
-var hdrNames = []string{"stream:stream", "stream:other", "open", "foo", "error"}
+var hdrNames = []string{"stream:stream", "stream:other", "open", "foo", "error", "ws:close", "ws:other"}
 var hdrPrefix = []string{streamNS, "urn:wrong"}
 var hdrXMLNS = []string{stanza.NSClient, stanza.NSServer, "urn:other", "-"}
 var hdrVersions = []string{"1.0", "0.9", "2.0", "-", "junk", "1.1", "", "257.0", "1.256", "513.512", "-255.0", "+1.0", "1", "1.0.0", " 1.0", "1.0 "}
